@@ -341,6 +341,8 @@ def check_load(repo: Repo, rep: Report):
             first_pos = n.targets[0].id
     probs = []
     for c in after:
+        if c.func.attr in ("tell", "seekable", "readable", "fileno", "isatty"):
+            continue  # observes the stream, does not move or consume it
         if c.func.attr != "seek":
             probs.append(f"`{src(c)}` (line {c.lineno}) touches the stream after the last opcode: what follows the pickle is consumed")
             continue
@@ -359,6 +361,30 @@ def check_load(repo: Repo, rep: Report):
         rep.ok("C06.end-position", f.qualname, f"after the loop the stream is only positioned: {[src(c) for c in after]}", f"{file}:{after[0].lineno}")
     else:
         rep.bad("C06.end-position", f.qualname, "no-final-seek", "Pickled.load does not position the stream after the last opcode", file, f.line)
+    # what the tokeniser's failure means: "nothing here is a pickle" (EmptyPickleError: the stacking loop ends quietly -
+    # trailing non-pickle bytes after the last pickle are normal) exactly when no opcode was parsed, a decoding error
+    # otherwise.  Any other criterion turns trailing data into an error (or a broken pickle into a silent end of stack).
+    handlers = [h for n in body_walk(f.node) if isinstance(n, ast.Try) for h in n.handlers if h.type is not None and "ValueError" in src(h.type)]
+    decided = False
+    for h in handlers:
+        for st in h.body:
+            if isinstance(st, ast.If):
+                raises_b = [dotted(x.exc.func if isinstance(x.exc, ast.Call) else x.exc) for x in ast.walk(ast.Module(body=st.body, type_ignores=[])) if isinstance(x, ast.Raise) and x.exc is not None]
+                raises_e = [dotted(x.exc.func if isinstance(x.exc, ast.Call) else x.exc) for x in ast.walk(ast.Module(body=st.orelse or [], type_ignores=[])) if isinstance(x, ast.Raise) and x.exc is not None]
+                later = [dotted(x.exc.func if isinstance(x.exc, ast.Call) else x.exc) for s2 in h.body[h.body.index(st) + 1:] for x in ast.walk(s2) if isinstance(x, ast.Raise) and x.exc is not None]
+                raises_e = raises_e or later
+                t = src(st.test)
+                nonempty = t in ("opcodes", "len(opcodes) > 0", "len(opcodes) != 0", "len(opcodes)", "bool(opcodes)")
+                empty = t in ("not opcodes", "len(opcodes) == 0")
+                if ("EmptyPickleError" in raises_b + raises_e) and ("PickleDecodeError" in raises_b + raises_e):
+                    decided = True
+                    good = (nonempty and "PickleDecodeError" in raises_b and "EmptyPickleError" in raises_e) or (empty and "EmptyPickleError" in raises_b and "PickleDecodeError" in raises_e)
+                    if good:
+                        rep.ok("C06.end-position", f.qualname, "a tokeniser failure is 'no pickle here' exactly when no opcode was parsed, a decoding error otherwise", f"{file}:{st.lineno}")
+                    else:
+                        rep.bad("C06.end-position", f.qualname, "empty-parse-misclassified", f"a tokeniser failure is classified by `{t}` instead of 'was any opcode parsed': trailing non-pickle bytes after the last pickle of a stack (a zip/tar appended to a pickle) become a decoding error, or a broken pickle silently ends the stack", file, st.lineno)
+    if handlers and not decided:
+        raise AnalysisError("Pickled.load: the ValueError handler's EmptyPickleError / PickleDecodeError decision was not recognised")
     ret = [n for n in body_walk(f.node) if isinstance(n, ast.Return) and n.value is not None]
     if len(ret) == 1 and src(ret[0].value) == "Pickled(opcodes)":
         rep.ok("C06.end-position", f.qualname, "returns Pickled(opcodes): every parsed opcode, in order", f"{file}:{ret[0].lineno}")
